@@ -18,7 +18,7 @@ const FILLER: [&str; 14] = [
 
 struct Template { name: &'static str, text: &'static str, msg: &'static str, want: &'static str, last_only: bool }
 
-const TEMPLATES: [Template; 21] = [
+const TEMPLATES: [Template; 41] = [
     Template { name: "unrecognized-ascii", text: "let a = 1 $ 2\n", msg: "Unrecognized token", want: "$", last_only: false },
     Template { name: "unrecognized-nonascii", text: "let a = 1 é 2\n", msg: "Unrecognized token", want: "é", last_only: false },
     Template { name: "unrecognized-nonascii4", text: "let a = 😀\n", msg: "Unrecognized token", want: "😀", last_only: false },
@@ -39,6 +39,27 @@ const TEMPLATES: [Template; 21] = [
     Template { name: "redundant-arm", text: "match true {\n  true -> \"é\"\n  false -> \"b\"\n  true -> \"c\"\n}\n", msg: "This match expression has redundant cases", want: "match true {\n  true -> \"é\"\n  false -> \"b\"\n  true -> \"c\"\n}", last_only: false },
     Template { name: "immutable-assignment", text: "let imm = \"ö\"\nimm = \"ü\"\n", msg: "Can't modify immutable variable", want: "imm", last_only: false },
     Template { name: "unresolved-member", text: "let xs = [\"é\"]\nxs.nope()\n", msg: "Could not resolve member function", want: "xs", last_only: false },
+    // ---- diagnostic kinds no other generator reaches (coverage report gaps_A / gaps_B)
+    Template { name: "let-annotation-vs-pattern", text: "let (pa, pb): int = (1, 2)\n", msg: "Variable and annotation do not match", want: "(pa, pb)", last_only: false },
+    Template { name: "binop-right-mod", text: "let g = 5 % 2.5\n", msg: "Operands must have the same type", want: "5 % 2.5", last_only: false },
+    Template { name: "binop-right-mod-assign", text: "var md = 5\nmd %= \"ß\"\n", msg: "Conflicting types", want: "\"ß\"", last_only: false },
+    Template { name: "operand-must-be-bool", text: "let d = true and 5\n", msg: "Operand must be `bool`", want: "true and 5", last_only: false },
+    Template { name: "clash-builtin-type", text: "type array = { x: int }\n", msg: "`array` was declared more than once", want: "array", last_only: false },
+    Template { name: "clash-prelude-function", text: "fn array_push(x: int) -> int { x }\n", msg: "`array_push` was declared more than once", want: "array_push", last_only: false },
+    Template { name: "clash-host-function", text: "fn print_string(s: string) -> void { }\n", msg: "`print_string` was declared more than once", want: "<other-file>", last_only: false },
+    Template { name: "duplicate-interface-method", text: "interface Foo {\n    fn foo(self) -> int\n    fn foo(self) -> int\n}\n", msg: "`foo` was declared more than once", want: "foo", last_only: false },
+    Template { name: "duplicate-output-type", text: "interface Bar {\n    outputtype Aa\n    outputtype Aa\n    fn bar(self) -> int\n}\n", msg: "`Aa` was declared more than once", want: "Aa", last_only: false },
+    Template { name: "duplicate-variant", text: "type Ee = Cc | Cc\n", msg: "`Cc` was declared more than once", want: "Cc", last_only: false },
+    Template { name: "duplicate-field", text: "type Pt2 = { x: int, x: int }\n", msg: "`x` was declared more than once", want: "x", last_only: false },
+    Template { name: "duplicate-parameter", text: "fn gen(a: T, a: T) -> T { a }\n", msg: "`a` was declared more than once", want: "a", last_only: false },
+    Template { name: "impl-type-not-generic", text: "implement ToString for array<int> {\n    fn str(self) -> string { \"ïnts\" }\n}\n", msg: "Interface cannot be implemented for this type", want: "array<int>", last_only: false },
+    Template { name: "interface-method-without-self", text: "interface NoSelf {\n    fn nothing(x: int) -> int\n}\nimplement NoSelf for int {\n    fn nothing(x: int) -> int { x }\n}\n", msg: "This interface method must contain `Self`", want: "nothing", last_only: false },
+    Template { name: "host-and-foreign", text: "#host\n#foreign\nfn both(x: int) -> int\n", msg: "function declaration cannot be #host and #foreign", want: "fn both(x: int) -> int", last_only: false },
+    Template { name: "foreign-not-enabled", text: "#foreign(blocking)\nfn slow(x: int) -> int\n", msg: "Foreign functions are not enabled", want: "fn slow(x: int) -> int", last_only: false },
+    Template { name: "struct-pattern-too-many-fields", text: "type Pt3 = { x: int, y: int }\nlet sp = match Pt3(1, 2) {\n    Pt3(a, b, c) -> \"é\"\n}\n", msg: "Struct pattern for `Pt3` has 3 field(s)", want: "Pt3(a, b, c)", last_only: false },
+    Template { name: "empty-parens-pattern", text: "let ep = match 5 {\n    () -> 1\n    _ -> 2\n}\n", msg: "Parentheses are empty", want: "()", last_only: false },
+    Template { name: "int-pattern-out-of-range", text: "let ip = match 5 {\n    99_999_999_999_999_999_999 -> \"ü\"\n    _ -> \"x\"\n}\n", msg: "Could not parse integer literal", want: "99_999_999_999_999_999_999", last_only: false },
+    Template { name: "unresolvable-use", text: "use no_such_module\n", msg: "Could not resolve identifier", want: "use no_such_module", last_only: false },
     Template { name: "unexpected-eof", text: "let a = 1 +", msg: "Unexpected token", want: "<eof>", last_only: true },
 ];
 
@@ -98,13 +119,36 @@ fn main() {
         let mut matched = false;
         for d in &diags {
             ctx.count(&format!("diag:{}", d.message.lines().next().unwrap_or("").chars().take(40).collect::<String>()));
-            if d.file != 0 { ctx.count("diag:other-file"); continue; }
+            if d.file != 0 {
+                // a label in the prelude (file 1): still a range of *that* file
+                ctx.count("diag:other-file");
+                if d.file == 1 {
+                    if let Err(why) = range_ok(abra_core::PRELUDE, &d.range) {
+                        ctx.spec_fail(format!("{}: diagnostic {:?}: primary range in the prelude {why}", t.name, d.message));
+                    }
+                    for (f, r) in &d.secondary {
+                        if *f == 0 {
+                            if let Err(why) = range_ok(&j.src, r) { ctx.spec_fail(format!("{}: diagnostic {:?}: secondary label {why}; source {:?}", t.name, d.message, j.src)); }
+                            else if d.message.starts_with(t.msg) && t.want == "<other-file>" {
+                                matched = true;
+                                if &j.src[r.clone()] != "print_string" { ctx.spec_fail(format!("{}: the label in the user's file covers {:?}, not the clashing name; source {:?}", t.name, &j.src[r.clone()], j.src)); }
+                            }
+                        }
+                    }
+                }
+                continue;
+            }
             if let Err(why) = range_ok(&j.src, &d.range) {
                 ctx.spec_fail(format!("{}: diagnostic {:?}: primary range {why}; source {:?}", t.name, d.message, j.src));
                 if d.message.starts_with(t.msg) && d.range.start >= j.err_at { matched = true; }
                 continue;
             }
             for (f, r) in &d.secondary {
+                if *f == 1 {
+                    if let Err(why) = range_ok(abra_core::PRELUDE, r) {
+                        ctx.spec_fail(format!("{}: diagnostic {:?}: secondary label in the prelude {why}", t.name, d.message));
+                    }
+                }
                 if *f == 0 {
                     if let Err(why) = range_ok(&j.src, r) {
                         ctx.spec_fail(format!("{}: diagnostic {:?}: secondary label {why}; source {:?}", t.name, d.message, j.src));
@@ -130,6 +174,29 @@ fn main() {
                 t.name, t.msg, diags.iter().map(|d| (d.message.clone(), d.range.clone())).collect::<Vec<_>>(), j.src));
         }
     }
+    // ---- hard regression probe for D93 (567a3fd): the locals-limit diagnostic of the main program names
+    //      the line of its first statement (it used to say line 0); behind a non-ASCII comment line
+    {
+        let mut big = String::from("// é — ∑\n\n");
+        for i in 0..32768 { big.push_str(&format!("let x{i} = {i}\n")); }
+        let r = std::thread::Builder::new().stack_size(512 << 20).spawn(move || run_program(&big)).unwrap().join().unwrap();
+        ctx.count("probe:D93");
+        match &r.outcome {
+            Outcome::Rejected(t) if t.starts_with("main.abra:3: too many local variables") => {}
+            o => ctx.spec_fail(format!("D93 probe: 32768 top-level locals behind a comment line and a blank line: expected `main.abra:3: too many local variables…`, got {:?}", format!("{o:?}").chars().take(200).collect::<String>())),
+        }
+        if !quick {
+            let mut f = String::from("fn f() {\n");
+            for i in 0..32768 { f.push_str(&format!("  let x{i} = {i}\n")); }
+            f.push_str("  0\n}\nprintln(f())\n");
+            let r = std::thread::Builder::new().stack_size(512 << 20).spawn(move || run_program(&f)).unwrap().join().unwrap();
+            match &r.outcome {
+                Outcome::Rejected(t) if t.starts_with("main.abra:1: too many local variables") => {}
+                o => ctx.spec_fail(format!("D93 probe (function frame): got {:?}", format!("{o:?}").chars().take(200).collect::<String>())),
+            }
+        }
+    }
+
     // ---- end-of-input family: the file ends exactly where more input is required, and its last
     //      character is ASCII / 2-byte / 3-byte / 4-byte, with and without a trailing newline.  Errors
     //      raised after the parser has stepped past the lexer's Eof token use `Parser::eof()`'s position.
